@@ -597,3 +597,25 @@ func mutC12() []mutant {
 			Old: "\treturn Sign1(rand, signer, headers, payload.HashValue, nil)", New: "\treturn Sign1(rand, signer, headers, payload.HashValue, payload.HashValue)"},
 	}
 }
+
+// checkEnvelopeRawNil: R12.3 alone (shared with C08's closure-under-decoder rule).
+func checkEnvelopeRawNil(r *Report, rule string) {
+	P := r.P
+	E := P.envelopeRoles()
+	sign1 := P.mustFn("Sign1")
+	for _, x := range P.factsOf(E.sign).exits {
+		if x.kind == exitFailure {
+			continue
+		}
+		c := delegCall(x.errTerm)
+		id := shortFn(E.sign) + ":exit:" + exitID(P, E.sign, x)
+		if c == nil || c.S != shortFn(sign1) || len(c.Args) != 5 {
+			r.ob(rule, id+":delegated", E.sign, x.ret, "the envelope producer emits through the Sign1 helper").fail("not delegated to " + shortFn(sign1))
+			continue
+		}
+		for _, f := range []string{"RawProtected", "RawUnprotected"} {
+			v := projectField(c.Args[2], f)
+			r.ob(rule, id+":"+f+"-nil", E.sign, x.ret, "Headers."+f+" handed to Sign1 is the nil constant (what is emitted is what was validated)").check(v.Op == "nil", f+" = nil", "Headers."+f+" handed to Sign1 is "+v.String())
+		}
+	}
+}
